@@ -2,6 +2,7 @@ import Vita.C11.Lemmas
 import Vita.C11.BigLemmas
 import Vita.C11.CacheLemmas
 import Vita.C11.LambdaLemmas
+import Vita.C11.Toy
 /-!
   C11 — save followed by load reproduces the object (property theorems).
 
@@ -209,22 +210,6 @@ example : Names.ok [['I', 'r', 'i', 's', ' ', 's'], [], ['C', '3']] := by
 
 /-! ### non-vacuity -/
 
-/-- a two-valued toy number type whose texts go through the *same* lexer -/
-def toyIO : FloatIO Bool where
-  fmt b := if b then ['1'] else ['0']
-  conv s := if s = ['1'] then some true else if s = ['0'] then some false else none
-  finite _ := true
-  lt a b := !a && b
-
-theorem ws_cases {c : Char} (h : isWs c = true) :
-    c = ' ' ∨ c = '\n' ∨ c = '\t' ∨ c = '\r' ∨ c = '\x0b' ∨ c = '\x0c' := by
-  simp [isWs] at h
-  rcases h with ((((h | h) | h) | h) | h) | h <;> simp [h]
-
-theorem lexBody_ws (c : Char) (t : Str) (h : isWs c = true) (fm fd fs : Bool) :
-    lexBody (c :: t) fm fd fs = ([], c :: t) := by
-  rcases ws_cases h with h | h | h | h | h | h <;> subst h <;> unfold lexBody <;> simp
-
 /-- the hypothesis `FloatLaw` is satisfiable -/
 theorem toyIO_law : FloatLaw toyIO where
   roundtrip := by
@@ -248,9 +233,6 @@ example : Matrix.ok .i32 ⟨3, [1, -2, 3, 4, 5, -2147483648]⟩ := by
   simp [Matrix.ok, Matrix.rows, elemOK, U64, I32]
 example : Dist.ok toyIO ⟨3, true, false, true, false, [(false, 1), (true, 2)]⟩ := by
   simp [Dist.ok, KeysSorted, toyIO, U64]
-/-- a two-symbol table: opcode 0 = parametric terminal, opcode 1 = binary function -/
-def toyTab : SymTab := fun op => if op = 0 then some ⟨true, 0⟩ else if op = 1 then some ⟨false, 2⟩ else none
-def toyInd : IMep Bool := ⟨3, 1, [⟨1, none, [1, 1]⟩, ⟨0, some true, []⟩], (0, 0)⟩
 example : IMep.ok toyIO toyTab toyInd := by
   refine ⟨by decide, by decide, by decide, by decide, ?_, by decide⟩
   intro g hg
